@@ -16,4 +16,5 @@ for cd in runner.CASES[prop]:
                 if o["status"] != "unsat" or "-a" in sys.argv:
                     print(n, o["status"], json.dumps(o.get("model")), "\n  replay:", json.dumps(o.get("replay"))[:1500])
                     if "-vc" in sys.argv: print(o["vc"])
+                    if "-i" in sys.argv: print("  info:", json.dumps({k: v for k, v in (o.get("info") or {}).items() if not k.startswith("_")}, default=str)[:1500])
             print(cid, "paths", r["paths"], "undecided", r["undecided_paths"], "crash", r["crash"])
